@@ -3,6 +3,7 @@ package main
 import (
 	"fmt"
 	"go/token"
+	"go/types"
 	"sort"
 	"strings"
 
@@ -375,4 +376,148 @@ func boundTarget(w *ssa.Function) *ssa.Function {
 		}
 	}
 	return nil
+}
+
+// ---- RESTRICT-asi ------------------------------------------------------------------------------------------------------
+
+func init() {
+	register(&Rule{ID: "RESTRICT-asi", Props: []string{"C03"}, Min: 5,
+		Doc: "P (ES5 §7.9.1, the restricted productions): after `return`, `break`, `continue` and `throw`, and between an operand and a postfix `++` / `--`, no line terminator may occur; one that does ends the statement (is an error for throw). In each of the five parser functions that build those nodes, the step that takes the operand (parseExpression for return / throw, parseIdentifier for a break / continue label, building the postfix UnaryExpression) is unreachable from the side of a test of the scanner's newline flag (parser.implicitSemicolon) on which a line terminator was seen, and reachable from the other side",
+		Run: ruleRestrictASI})
+}
+
+func ruleRestrictASI(c *Ctx, r *R) {
+	astPath := ottoPath + "/ast"
+	type site struct {
+		what   string
+		fn     *ssa.Function
+		anchor ssa.Instruction
+	}
+	var sites []site
+	for _, fn := range c.AllSrcFuncs("parser") {
+		if fn.Parent() != nil {
+			continue
+		}
+		allocs := map[string]*ssa.Alloc{}
+		for _, b := range fn.Blocks {
+			for _, ins := range b.Instrs {
+				if al, ok := ins.(*ssa.Alloc); ok && al.Heap {
+					if n := derefNamed(al.Type()); n != nil && n.Obj().Pkg() != nil && n.Obj().Pkg().Path() == astPath {
+						allocs[n.Obj().Name()] = al
+					}
+				}
+			}
+		}
+		callTo := func(name string) ssa.Instruction {
+			var first ssa.Instruction
+			for _, b := range fn.Blocks {
+				for _, ins := range b.Instrs {
+					if call, ok := ins.(*ssa.Call); ok {
+						if callee := call.Call.StaticCallee(); callee != nil && callee.Name() == name && first == nil {
+							first = call
+						}
+					}
+				}
+			}
+			return first
+		}
+		if allocs["ReturnStatement"] != nil {
+			sites = append(sites, site{"return", fn, callTo("parseExpression")})
+		}
+		if allocs["ThrowStatement"] != nil {
+			sites = append(sites, site{"throw", fn, callTo("parseExpression")})
+		}
+		if allocs["BranchStatement"] != nil {
+			what := "break/continue"
+			for _, b := range fn.Blocks {
+				for _, ins := range b.Instrs {
+					if st, ok := ins.(*ssa.Store); ok {
+						if nt, f := fieldOfAddr(st.Addr); nt != nil && nt.Obj().Name() == "BranchStatement" && f.Name() == "Token" {
+							if k, ok := st.Val.(*ssa.Const); ok {
+								if nt2, ok := k.Type().(*types.Named); ok {
+									if v, ok := constInt(k); ok {
+										what = strings.ToLower(tokenNameOf(nt2, v))
+									}
+								}
+							}
+						}
+					}
+				}
+			}
+			sites = append(sites, site{what, fn, callTo("parseIdentifier")})
+		}
+		if al := allocs["UnaryExpression"]; al != nil {
+			for _, ref := range *al.Referrers() {
+				if fa, ok := ref.(*ssa.FieldAddr); ok {
+					if _, f := fieldOfAddr(fa); f != nil && f.Name() == "Postfix" {
+						for _, r2 := range *fa.Referrers() {
+							if st, ok := r2.(*ssa.Store); ok {
+								if k, ok := st.Val.(*ssa.Const); ok && k.Value != nil && k.Value.ExactString() == "true" {
+									sites = append(sites, site{"postfix ++/--", fn, al})
+								}
+							}
+						}
+					}
+				}
+			}
+		}
+	}
+	seen := map[string]bool{}
+	for _, s := range sites {
+		key := s.what + ":" + ssaFuncName(s.fn)
+		seen[s.what] = true
+		if s.anchor == nil {
+			r.undecided(key, c.Pos(s.fn.Pos()), "UNRESOLVED: the step that takes the operand was not found")
+			continue
+		}
+		// tests of the newline flag in this function
+		derivesFromFlag := func(v ssa.Value) bool {
+			isFlag := func(x ssa.Value) bool {
+				a := loadAddr(x)
+				return a != nil && isFieldAddr(a, "parser", "implicitSemicolon")
+			}
+			if isFlag(v) {
+				return true
+			}
+			if phi, ok := v.(*ssa.Phi); ok {
+				has := false
+				for _, e := range phi.Edges {
+					if isFlag(e) {
+						has = true
+					} else if k, ok := e.(*ssa.Const); !ok || k.Value == nil || k.Value.ExactString() != "true" {
+						return false
+					}
+				}
+				return has
+			}
+			return false
+		}
+		okSite := false
+		for _, b := range s.fn.Blocks {
+			iff, ok := b.Instrs[len(b.Instrs)-1].(*ssa.If)
+			if !ok {
+				continue
+			}
+			cond, neg := normBool(iff.Cond)
+			if !derivesFromFlag(cond) {
+				continue
+			}
+			newline, other := b.Succs[0], b.Succs[1]
+			if neg {
+				newline, other = other, newline
+			}
+			cut := map[*ssa.BasicBlock]bool{b: true}
+			fromNewline := newline == s.anchor.Block() || reaches(newline, s.anchor.Block(), cut)
+			fromOther := other == s.anchor.Block() || reaches(other, s.anchor.Block(), cut)
+			if !fromNewline && fromOther {
+				okSite = true
+			}
+		}
+		r.check(okSite, key, c.Pos(instrPos(s.anchor)), "the operand is taken only when no line terminator was seen", fmt.Sprintf("§7.9.1: in %s the operand of %s is taken without a test of the scanner's newline flag that excludes it after a line terminator: `%s` followed by a newline must end the statement there (for throw: be an error), so the next line is not its operand", ssaFuncName(s.fn), s.what, s.what))
+	}
+	for _, w := range []string{"return", "throw", "break", "continue", "postfix ++/--"} {
+		if !seen[w] {
+			r.undecided("unresolved:"+w, "-", "UNRESOLVED: no parser function builds the node for "+w)
+		}
+	}
 }
